@@ -1,6 +1,8 @@
 package implements
 
 import (
+	"go/types"
+
 	"github.com/a14e/gogreement/src/annotations"
 )
 
@@ -123,23 +125,28 @@ func checkImplementation(
 	// Create index of type's methods
 	typeMethods := make(map[string]TypeMethod)
 	for _, method := range typeModel.Methods {
+		// A pointer to an interface type has no methods at all
+		if requirePointer && typeModel.UnderlyingType == "interface" {
+			break
+		}
+
 		// Filter methods based on pointer requirement
 		if requirePointer {
 			// For &Interface, we need pointer receiver methods
 			// (but value receiver methods are also OK per Go spec:
 			// method set of *T includes methods with receiver T or *T)
-			typeMethods[method.Name] = method
+			typeMethods[typeMethodKey(method)] = method
 		} else {
 			// For Interface (no &), we need value receiver methods only
 			if !method.ReceiverIsPointer {
-				typeMethods[method.Name] = method
+				typeMethods[typeMethodKey(method)] = method
 			}
 		}
 	}
 
 	// Check each interface method
 	for _, ifaceMethod := range iface.Methods {
-		typeMethod, exists := typeMethods[ifaceMethod.Name]
+		typeMethod, exists := typeMethods[interfaceMethodKey(ifaceMethod)]
 		if !exists {
 			missing = append(missing, ifaceMethod)
 			continue
@@ -183,8 +190,30 @@ func signaturesMatch(typeMethod TypeMethod, ifaceMethod InterfaceMethod) bool {
 	return true
 }
 
+// typeMethodKey / interfaceMethodKey identify a method the way Go does: by name, and for
+// unexported names by name and package (two packages' unexported m() are different methods).
+func typeMethodKey(m TypeMethod) string {
+	if m.ID != "" {
+		return m.ID
+	}
+	return m.Name
+}
+
+func interfaceMethodKey(m InterfaceMethod) string {
+	if m.ID != "" {
+		return m.ID
+	}
+	return m.Name
+}
+
 // typesMatch checks if two types are the same
 func typesMatch(t1 *MethodType, t2 *InterfaceType) bool {
+	// Go's own notion of type identity: any/interface{}, byte/uint8, aliases at any depth and
+	// parameter names inside func types do not make types differ
+	if t1.Type != nil && t2.Type != nil {
+		return types.Identical(t1.Type, t2.Type) && t1.IsVariadic == t2.IsVariadic
+	}
+
 	return t1.TypeName == t2.TypeName &&
 		t1.TypePackage == t2.TypePackage &&
 		t1.IsPointer == t2.IsPointer &&
